@@ -22,6 +22,17 @@ def sh(cmd, **kw):
     return subprocess.run(cmd, shell=isinstance(cmd, str), stdout=subprocess.PIPE, stderr=subprocess.STDOUT, text=True, **kw)
 
 
+def record(name, pid, status, nviol, nf):
+    """selftest/results.json: last outcome per (patch, property); read by DESIGN.md's detection matrix"""
+    path = os.path.join(ROOT, "selftest", "results.json")
+    try:
+        data = json.load(open(path))
+    except Exception:
+        data = {}
+    data[name + " " + pid] = {"status": status, "violation_lines": nviol, "without_failing_input": nf}
+    json.dump(data, open(path, "w"), indent=1, sort_keys=True)
+
+
 def main():
     args = [a for a in sys.argv[1:] if not a.startswith("--")]
     patches = sorted(glob.glob(os.path.join(ROOT, "selftest", "mutants", "*.diff")))
@@ -55,6 +66,7 @@ def main():
                 if status != "DETECTED":
                     print(c.stdout[-800:])
                 results.append((name, pid, status))
+                record(name, pid, status, len(viol), nf)
         finally:
             sh("git -C /repo checkout -- .")
     return 0
